@@ -31,9 +31,21 @@ func debugAst(prog string, rootSelectors []string) error {
 	return nil
 }
 
+// endsOperand reports whether a token of this kind can end an operand, so that
+// a / after it is a division
+func endsOperand(tag lang.TokenTag) bool {
+	switch tag {
+	case lang.Ident, lang.Str, lang.Regex, lang.Num, lang.Null, lang.True, lang.False, lang.Dollar,
+		lang.RSquare, lang.RParen, lang.PlusPlus, lang.MinusMinus:
+		return true
+	}
+	return false
+}
+
 func debugLex(prog string, rootSelectors []string) error {
 	dbg := func(prog string) error {
 		lex := lang.NewLexer(prog)
+		prev := lang.Newline
 		line := 1
 		fmt.Print("   1: ")
 		for {
@@ -42,15 +54,20 @@ func debugLex(prog string, rootSelectors []string) error {
 				return err
 			}
 
-			if tok.Tag == lang.Divide {
-				// without the parser there is no telling a division from the start
-				// of a regex: it is shown as a regex when one can be read from here
-				saved := lex
-				if regex, err := lex.Regex(); err == nil {
-					tok = regex
+			// a / (or /=) starts a regex where the parser would expect an operand:
+			// at the start, after an operator, a separator or an opening bracket
+			if (tok.Tag == lang.Divide || tok.Tag == lang.DivideEqual) && !endsOperand(prev) {
+				if tok.Tag == lang.Divide {
+					tok, err = lex.Regex()
 				} else {
-					lex = saved
+					tok, err = lex.RegexAfterEqual()
 				}
+				if err != nil {
+					return err
+				}
+			}
+			if tok.Tag != lang.Newline {
+				prev = tok.Tag
 			}
 
 			if tok.Len == 0 {
